@@ -324,6 +324,12 @@ void mmd_export_link_latex(DString * out, const char * source, token * text, lin
 		mmd_export_token_tree_latex(out, source, text->child, scratch);
 	}
 
+	// Leave the token as we found it, so that the tree can be exported again
+	if (text && text->child && text->child->len > 1) {
+		text->child->next->start++;
+		text->child->next->len--;
+	}
+
 	print_const("}");
 
 	// Reprint as footnote for printed copies
